@@ -20,7 +20,7 @@
      - at the end, ordered: the slots 1..max must all be filled, otherwise
        "Ordered argument missing" at offset 0.                                *)
 From Coq Require Import NArith List Bool Arith.
-From CL Require Import Base.Str Model.CheckProps.
+From CL Require Import Base.Str Generated.C06Facts Model.CheckProps.
 Import ListNotations.
 
 Inductive width := WNone | WStar | WNum (ds : str).
@@ -148,3 +148,29 @@ Fixpoint argmodel_from (toks : list tok) (off : nat) (st : style) : sres :=
   end.
 
 Definition argmodel (toks : list tok) : sres := argmodel_from toks 0 SNone.
+
+(* ---- the vocabulary of verdicts ------------------------------------------------
+   What the consumers of a checker look at: the severity strings "error" and
+   "warning" (compare/content.py counts them), the category, the position. *)
+Definition s_error : str := [101; 114; 114; 111; 114]%N.                    (* "error" *)
+Definition s_warning : str := [119; 97; 114; 110; 105; 110; 103]%N.         (* "warning" *)
+Definition s_printf : str := [112; 114; 105; 110; 116; 102]%N.              (* "printf" *)
+Definition s_plural : str := [112; 108; 117; 114; 97; 108]%N.               (* "plural" *)
+
+Definition is_error (f : finding) : bool := str_eqb (f_sev f) s_error.
+Definition has_error (fs : list finding) : bool := existsb is_error fs.
+
+Definition prefix {A} (l1 l2 : list A) : Prop := exists c, l2 = l1 ++ c.
+
+(* ---- plural forms ------------------------------------------------------------------ *)
+Definition plural_f (sev msg : str) : finding := mkf sev 0 false msg s_plural.
+
+(* the number of plural forms of a locale: None = unknown locale *)
+Definition plural_forms (locale : option str) : option nat :=
+  match get_plural_rule locale with
+  | Some n => Some (length (nth n plural_categories_by_index []))
+  | None => None
+  end.
+
+Definition semicolon : N := 59%N.
+Definition found_forms (l10nValue : str) : nat := count_char semicolon l10nValue + 1.
